@@ -60,7 +60,7 @@ def run(ctx):
         vneg = lib.run_tlc(ctx, "ValveCollect", "ValveCollect_mc.cfg", {"DEV": '"LoadThenStore"'}, tag="valvecollect_neg", workers=2, expect_violation=True)
         if vneg.ok or vneg.violated != "Conservation":
             raise lib.Inconclusive("ValveCollect with LoadThenStore should violate Conservation (got %s)" % vneg.violated)
-        col = lib.run_go(ctx, "server", "TestVerifC16Collect", tag="collect", timeout=900, prefixes=("c15", "c16", "c17", "shared"))
+        col = lib.run_go(ctx, "server", "TestVerifC16(Collect|Orphan)", tag="collect", timeout=900, prefixes=("c15", "c16", "c17", "shared"))
         if col.get("_died"):
             raise lib.Inconclusive("driver died: " + col.get("_stdout_tail", ""))
         panel.classify(ctx, col, KEYS)
